@@ -52,6 +52,28 @@ def dump_files(paths):
 
 
 # ---------------------------------------------------------------------------------------------------------------------
+
+BOOL_METHODS = ('any', 'all', 'contains', 'contains_key', 'is_some', 'is_none', 'is_empty', 'is_ok', 'is_err', 'starts_with', 'ends_with', 'eq', 'ne',
+                'is_some_and', 'is_none_or', 'insert_bool')
+
+
+def boolish(e):
+    """syntactically evident boolean operand (used to read `a & b` / `a | b` on booleans as and / or; bit-flag unions are paths and calls)"""
+    k = e.get('k')
+    if k == 'Paren':
+        return boolish(e['expr'])
+    if k == 'Unary' and e.get('op') == '!':
+        return True
+    if k == 'Binary':
+        return e['op'] in ('&&', '||', '==', '!=', '<', '>', '<=', '>=') or (e['op'] in ('&', '|') and (boolish(e['l']) or boolish(e['r'])))
+    if k == 'Macro' and e.get('name') == 'matches':
+        return True
+    if k == 'MethodCall':
+        return e.get('method') in BOOL_METHODS
+    if k == 'Lit':
+        return e.get('ty') == 'bool'
+    return False
+
 class Crate:
     """items of the crate, organised by module, with use-tables for path resolution"""
 
@@ -958,6 +980,9 @@ class Interp:
         k = e['k']
         if k == 'Unary' and e['op'] == '!':
             return self.neg(self.cond(e['expr'], env))
+        if k == 'Binary' and e['op'] in ('&', '|') and (boolish(e['l']) or boolish(e['r'])):
+            # non-short-circuit and / or of two boolean operands
+            e = dict(e, op={'&': '&&', '|': '||'}[e['op']])
         if k == 'Binary' and e['op'] in ('&&', '||'):
             a = self.cond(e['l'], env)
             # bindings of `if let` on the left are visible on the right
@@ -1098,7 +1123,7 @@ class Interp:
         return ('un', e['op'], self.expr(e['expr'], env))
 
     def e_Binary(self, e, env, **kw):
-        if e['op'] in ('&&', '||', '==', '!='):
+        if e['op'] in ('&&', '||', '==', '!=') or (e['op'] in ('&', '|') and (boolish(e['l']) or boolish(e['r']))):
             return self.cond(e, env)
         if e['op'].endswith('=') and e['op'] not in ('<=', '>='):
             op = e['op'][:-1]
